@@ -415,6 +415,28 @@ func resignHistory(r *common.Rand, b built, ht uint8, flags uint32, viaFillAll b
 	}
 }
 
+// signPlan: how input i is signed - the SigHashFlags value handed to the library (0 = "use the default") and the
+// entry point: 0 tx.FillInput, 1 unlocker.Simple.UnlockingScript called directly + tx.InsertInputUnlockingScript,
+// 2 tx.FillAllInputs (which passes ALL|FORKID itself). The Coq side replays the same calls on the model
+// (coq/model/Sign.v) and compares the scripts.
+func signPlan(ht uint8, i, nouts int, viaFillAll bool) (req uint8, path int) {
+	if viaFillAll {
+		return 0x41, 2
+	}
+	if ht == 0x41 {
+		switch (i + nouts) % 3 {
+		case 0:
+			// the unlocker called directly (as a custom bt.Unlocker wrapper or a signing service does) with the
+			// hash type left at its documented default (0 = ALL|FORKID)
+			return 0, 1
+		case 1:
+			// FillInput with the hash type left at its default
+			return 0, 0
+		}
+	}
+	return ht, 0
+}
+
 func signTx(tx *bt.Tx, b built, ht uint8, viaFillAll bool) error {
 	var err error
 	var pm string
@@ -428,11 +450,10 @@ func signTx(tx *bt.Tx, b built, ht uint8, viaFillAll bool) error {
 	} else {
 		panicked, pm = common.Safely(func() {
 			for i, k := range b.keys {
-				if ht == 0x41 && (i+len(b.spec.Outs))%2 == 0 {
-					// the unlocker called directly (as a custom bt.Unlocker wrapper or a signing service does) with the
-					// hash type left at its documented default (0 = ALL|FORKID)
+				req, path := signPlan(ht, i, len(b.spec.Outs), false)
+				if path == 1 {
 					var us *bscript.Script
-					if us, err = (&unlocker.Simple{PrivateKey: k.priv}).UnlockingScript(context.Background(), tx, bt.UnlockerParams{InputIdx: uint32(i)}); err != nil {
+					if us, err = (&unlocker.Simple{PrivateKey: k.priv}).UnlockingScript(context.Background(), tx, bt.UnlockerParams{InputIdx: uint32(i), SigHashFlags: sighash.Flag(req)}); err != nil {
 						return
 					}
 					if err = tx.InsertInputUnlockingScript(uint32(i), us); err != nil {
@@ -441,7 +462,7 @@ func signTx(tx *bt.Tx, b built, ht uint8, viaFillAll bool) error {
 					continue
 				}
 				if err = tx.FillInput(context.Background(), &unlocker.Simple{PrivateKey: k.priv},
-					bt.UnlockerParams{InputIdx: uint32(i), SigHashFlags: sighash.Flag(ht)}); err != nil {
+					bt.UnlockerParams{InputIdx: uint32(i), SigHashFlags: sighash.Flag(req)}); err != nil {
 					return
 				}
 			}
@@ -618,7 +639,13 @@ func runCase(r *common.Rand, sh shape, kind string, ht uint8, flags uint32, viaF
 			c.Violate("sign-verify/signature-does-not-verify-under-go-bk", fmt.Sprintf("input %d", i), tw)
 			allOK = false
 		}
-		signed = append(signed, fmt.Sprintf("mkSigned %d %s %s", i, common.CoqBytes(pk), common.CoqBytes(sig)))
+		if len(pk) != 33 || len(common.Unhex(s.Ins[i].Unlock)) != 1+len(sig)+1+1+33 {
+			c.Violate("unlocker.Simple/unlocking-script-shape", fmt.Sprintf("input %d: not two direct pushes of len(sig)+1 and 33 bytes", i), tw)
+			allOK = false
+		}
+		req, path := signPlan(ht, i, len(b.spec.Outs), viaFillAll)
+		c.Tally(fmt.Sprintf("sign-path/%d/requested=%02x", path, req))
+		signed = append(signed, fmt.Sprintf("mkSigned %d %s %s %d %d", i, common.CoqBytes(pk), common.CoqBytes(sig), req, path))
 	}
 	c.Tally("sign/" + via + "/" + map[bool]string{true: "accepted", false: "FAILED"}[allOK])
 	if !allOK {
@@ -764,7 +791,7 @@ func main() {
 			}
 		}
 	}
-	c.Stats.Rule = "each case: a transaction shape (inputs 1..4, outputs 0..4, signed position; quick: 12 shapes covering idx<nouts, idx=nouts-1, idx=nouts, idx>nouts; thorough: all 50, four rounds of fresh keys and fields) x one of the 6 FORKID types (flags FORKID|GENESIS) or 6 legacy types (flags none / GENESIS) x P2PKH or P2PKH-inscription previous output (built with the library: NewP2PKHFromPubKeyBytes, Tx.Inscribe), fresh seeded keys per input, random fields, pairwise distinct outputs; all inputs signed through unlocker.Simple (tx.FillInput; tx.FillAllInputs for ALL|FORKID on every other shape), every input run through the real interpreter; then EVERY single-field mutation at EVERY position (version, locktime, per input txid/vout/sequence, per output value/script, output insert at 0..n and remove, input insert at 0..n and remove (not the signed one), spent value, spent script (+OP_NOP; inscription payload byte)) applied to a copy, interpreter re-run on the signed input and preimage recomputed; plus, per case, a signing history on one object (sign, edit one or two fields in place keeping the counts, sign again, every input must verify). A case is distinct by (kind, type, shape, position, preimage) and non-trivial when at least one mutation was evaluated; Coq re-computes all preimages, the table and the interpreter model verdicts."
+	c.Stats.Rule = "each case: a transaction shape (inputs 1..4, outputs 0..4, signed position; quick: 12 shapes covering idx<nouts, idx=nouts-1, idx=nouts, idx>nouts; thorough: all 50, four rounds of fresh keys and fields) x one of the 6 FORKID types (flags FORKID|GENESIS) or 6 legacy types (flags none / GENESIS) x P2PKH or P2PKH-inscription previous output (built with the library: NewP2PKHFromPubKeyBytes, Tx.Inscribe), fresh seeded keys per input, random fields, pairwise distinct outputs; all inputs signed through unlocker.Simple (tx.FillInput with the type given or, for ALL|FORKID, left at 0; the unlocker called directly with type 0 + InsertInputUnlockingScript; tx.FillAllInputs for ALL|FORKID on every other shape - the Coq side replays the same calls on the signing model and compares scripts, type byte and shape), every input run through the real interpreter; then EVERY single-field mutation at EVERY position (version, locktime, per input txid/vout/sequence, per output value/script, output insert at 0..n and remove, input insert at 0..n and remove (not the signed one), spent value, spent script (+OP_NOP; inscription payload byte)) applied to a copy, interpreter re-run on the signed input and preimage recomputed; plus, per case, a signing history on one object (sign, edit one or two fields in place keeping the counts, sign again, every input must verify). A case is distinct by (kind, type, shape, position, preimage) and non-trivial when at least one mutation was evaluated; Coq re-computes all preimages, the table and the interpreter model verdicts."
 	c.Finish()
 }
 
